@@ -29,7 +29,12 @@ def run(ctx, report):
     report.section("reader exactness", exactness, ctx, report, folder)
     report.section("escape/decode inverse", inverse_tables, ctx, report, folder)
     report.section("style vocabularies", vocab, ctx, report, folder)
-    report.not_decided += ["equality of cues and text after a chain of conversions", "idempotence of a second pass",
+    from . import chain_fold, dfxp_reader_fold
+    report.section("conversion chains", chain_fold.run, ctx, report, {
+        "chain": ("R-CHAIN", "1"), "second": ("R-CHAIN", "2"), "sami": ("R-CHAIN", "1")})
+    report.section("DFXP round trip", dfxp_reader_fold.run, ctx, report, {"roundtrip": ("R-ROUNDTRIP", "1")})
+    report.not_decided += ["equality of cues and text after chains longer than two formats and beyond the folded caption sets",
+                           "chains that read SAMI (its reader drives a second parser outside the evaluator)",
                            "SAMI ends of last cues; whitespace normalisation by the parsers"]
 
 
